@@ -30,6 +30,17 @@ META["C04"] = dict(
   note="The single-cell reference goes through the same generated wrapper with N=1 (where modulo broadcasting and cell offsets are vacuous); kernels are trusted only to be deterministic (C14 checks that).",
   technique="differential property-based testing (rapid): vectorised run vs independent single-cell runs")
 
+META["C06"] = dict(
+  text="Metamorphic property test (split run vs whole run) over all 17 stateful models with generated parameters, series, initial states and split points. Two recorded findings (Sacramento unit-hydrograph buffer, dissolved-nutrient previous volume) are excluded by narrow predicates; everything they do not explain is still asserted. Exploration.",
+  design_ref="DESIGN.md section 4, C06",
+  note="Round-off tolerance 1e-9 relative (+1e-12 of the series magnitude); StorageRouting tolerance derived from its massBalanceLimit. Parameter domains are simref.DrawCell.",
+  technique="metamorphic property-based testing (rapid): segmented run with carried states vs uninterrupted run")
+META["C14"] = dict(
+  text="Metamorphic property test over the whole catalogue: repeat-run, fresh-object and after-other-runs results must be bit-identical, and outputs up to t must not depend on inputs after t (replacement and truncation). Exploration.",
+  design_ref="DESIGN.md section 4, C14",
+  note="Runs are single-cell through the catalogue; hidden state is only observable through outputs/final states, which is what the property speaks about.",
+  technique="metamorphic property-based testing (rapid): repeat / fresh object / perturbed-future relations")
+
 import os, sys
 sys.path.insert(0, os.path.dirname(os.path.abspath(__file__)))
 from checks_config import CHECKS
